@@ -324,13 +324,50 @@ def formatAt (check : Bool) (lint : Bytes → Bool) (t : Tree) (p : Bytes) : Run
 def formatCmd (check : Bool) (lint : Bytes → Bool) (t : Tree) (arg : Bytes) : Option RunResult :=
   if arg.contains '/' then none else some (formatAt check lint t (formatPathOf arg))
 
+/-- `path.Ext` removed: the name up to the last dot of its last path element (the whole name when that has no dot) -/
+def stripExt (name : Bytes) : Bytes :=
+  let last := (splitCh '/' name).getLast?.getD []
+  if last.contains '.' then name.take (name.length - ((splitCh '.' last).getLast?.getD []).length - 1) else name
+
+/-- the entries `tests/regression/tests/*/NAME.*` (files and directories, each once): directory, entry name, is a file -/
+def testCandidates (name : Bytes) (t : Tree) : List (Bytes × Bytes × Bool) :=
+  (t.filterMap fun (p, _) =>
+    if hasPrefix b!"tests/regression/tests/" p then
+      match splitCh '/' (p.drop 23) with
+      | d :: b :: more => if hasPrefix (name ++ b!".") b then some (d, b, more.isEmpty) else none
+      | _ => none
+    else none).eraseDups
+
+/-- `util renumber-tests ARG [--check]`: the argument without its extension names the test file, whatever its directory
+    and extension (`parseFilePath`: exactly one entry must match). `none`: an argument with a path separator or a
+    pattern character (the pattern language of `filepath.Glob` is not modelled), or whose name is empty or dots only. -/
+def renumberCmd (check : Bool) (t : Tree) (arg : Bytes) : Option RunResult :=
+  if arg.any (fun c => c == '/' || c == '*' || c == '?' || c == '[' || c == '\\') then none
+  else if stripExt arg == [] || stripExt arg == b!"." || stripExt arg == b!".." then none  -- `path.Join` cleans these away
+  else
+    match testCandidates (stripExt arg) t with
+    | [(d, b, isFile)] =>
+      match testFileId? b with
+      | none => some ⟨true, t, []⟩  -- not a test file name: skipped without a word
+      | some id =>
+        if !isFile then some ⟨false, t, []⟩
+        else
+          let p := b!"tests/regression/tests/" ++ d ++ b!"/" ++ b
+          match lookup p t with
+          | none => some ⟨false, t, []⟩
+          | some c =>
+            let (c', ok) := renumberOne check id c
+            some ⟨ok, setFile p c' t, []⟩
+    | _ => some ⟨false, t, []⟩
+
 /-- `RULE_ID | --all`: exactly one of the two, at most one argument (the `Args` validators of cmd/*.go) -/
 def oneTarget (inv : Invocation) : Bool :=
   (inv.all && inv.args.isEmpty) || (!inv.all && inv.args.length == 1)
 
 /-- `crs-toolchain [-o O] COMMAND …` on the tree of the resolved root. `lint`: verdict of the upper-case lint per file
     (an input); `versionOk`: verdict of the semantic-version library on the `-v` value (an input).
-    `none`: a form of the command this model does not cover (single-file format / renumber, `generate -`). -/
+    `none`: a form of the command this model does not cover (`generate -`, arguments with path separators or
+    pattern characters). -/
 def run (E : Asm.Engine) (cfg : Asm.Config) (o1 o2 : Parser.Ord) (lint : Bytes → Bool) (versionOk : Bool)
     (inv : Invocation) (t : Tree) : Option RunResult :=
   let fail : RunResult := ⟨false, t, []⟩
@@ -369,7 +406,9 @@ where
     | .renumber =>
       if !oneTarget inv then some fail
       else if inv.all then let r := renumberAll inv.check t; some ⟨r.ok, r.tree, []⟩
-      else if inv.args == [b!"-"] then some fail else none
+      else match inv.args with
+        | [arg] => if arg == b!"-" then some fail else renumberCmd inv.check t arg
+        | _ => some fail
     | .copyright =>
       match inv.version with
       | none => some fail
